@@ -17,7 +17,8 @@ HARNESS = os.path.join(VERIF, "harness")
 BUILD = os.path.join(VERIF, ".build")
 BIN = os.path.join(BUILD, "bin")
 WORK = os.path.join(BUILD, "work")
-EVID = os.path.join(VERIF, "evidence")
+# evidence of a run against another tree (VERIF_REPO, used to evaluate seeded changes) is kept apart
+EVID = os.path.join(VERIF, "evidence") if REPO == "/repo" else os.path.join(BUILD, "evidence-" + hashlib.md5(REPO.encode()).hexdigest()[:8])
 REPLAY = os.path.join(EVID, "replay")
 NCPU = int(os.environ.get("VERIF_JOBS", "16"))
 
